@@ -47,6 +47,10 @@ def run(rep):
     runs = [
         dict(name="C09_subsets", configs=cfgs, acts=["grow_set", "reap_partial", "reap_default"], max_steps=2, mode="bfs",
              need=["DoSow", "GrowSetAny", "ReapPartialAny", "ReapDefault"], sample=2500 if q else 30000),
+        dict(name="C09_many_batches", configs=[crop.mk([13], bmode="count", bval=11), crop.mk([27], bmode="count", bval=12, shufSow=1),
+                                               crop.mk([23], bmode="size", bval=2, farmer="runner")],
+             acts=["grow", "reap_partial", "grow_missing", "reap_default"], max_steps=6, mode="sim", num=60 if q else 600, check=False,
+             sample=250 if q else 3000),
         dict(name="C09_continue", configs=cfgs, acts=["grow_set", "grow", "reap_partial", "grow_missing", "reap_default", "reload"],
              max_steps=5, mode="sim", num=500 if q else 6000, check=False),
     ]
